@@ -45,8 +45,8 @@ Section Proofs.
           apply IH in W; subst. cbn. rewrite replace_nth_same; auto.
         * inv H; reflexivity.
       + destruct n as [t s v|kvs|es]; try (destruct (is_null _); inv H; reflexivity).
-        destruct es as [|e0 es']; [inv H|].
-        destruct (nth_error (e0 :: es') (List.length (e0 :: es') - 1)) as [e|] eqn:F; [|inv H].
+        destruct es as [|e0 es']; [inv H; reflexivity|].
+        destruct (nth_error (e0 :: es') (List.length (e0 :: es') - 1)) as [e|] eqn:F; [|inv H; reflexivity].
         destruct (walk None ps k e) as [[x' r']| | |] eqn:W; cbn in H; inv H.
         apply IH in W; subst. cbn [fst]. rewrite replace_nth_same; auto.
       + destruct n as [t s v0|kvs|es]; try (destruct (is_null _); inv H; reflexivity).
@@ -63,3 +63,1263 @@ Section Proofs.
   Lemma k_get_pure : pure_k k_get.
   Proof. intros x x' a H; inversion H; reflexivity. Qed.
 End Proofs.
+
+(* ====================================================================================================
+   Lens laws.  Layout: list facts; the one-level lens (child / plug) and its four laws; the
+   path-level laws by induction on the path; instances for put / put_scalar / clear_at.
+   ==================================================================================================== *)
+From KV Require Import Yaml.FnsSpec.
+
+Ltac inv H := inversion H; subst; clear H.
+
+(* ---------- association lists ---------- *)
+Lemma find_field_set_first_same name y kvs x :
+  find_field name kvs = Some x -> find_field name (set_first name y kvs) = Some y.
+Proof.
+  induction kvs as [|[k v] t IH]; cbn; intros H; [discriminate|].
+  destruct (String.eqb k name) eqn:E; cbn; rewrite E; auto.
+Qed.
+
+Lemma find_field_set_first_other a b y kvs :
+  a <> b -> find_field b (set_first a y kvs) = find_field b kvs.
+Proof.
+  intros Hab. induction kvs as [|[k v] t IH]; cbn; [reflexivity|].
+  destruct (String.eqb k a) eqn:E; cbn.
+  - apply String.eqb_eq in E; subst k.
+    destruct (String.eqb a b) eqn:E2; [apply String.eqb_eq in E2; contradiction|reflexivity].
+  - destruct (String.eqb k b); auto.
+Qed.
+
+Lemma set_first_set_first name y z kvs :
+  set_first name z (set_first name y kvs) = set_first name z kvs.
+Proof.
+  induction kvs as [|[k v] t IH]; cbn; [reflexivity|].
+  destruct (String.eqb k name) eqn:E; cbn; rewrite E; [reflexivity|now rewrite IH].
+Qed.
+
+Lemma find_field_app_same name y kvs :
+  find_field name kvs = None -> find_field name (kvs ++ [(name, y)]) = Some y.
+Proof.
+  induction kvs as [|[k v] t IH]; cbn; intros H.
+  - now rewrite String.eqb_refl.
+  - destruct (String.eqb k name); [discriminate|auto].
+Qed.
+
+Lemma find_field_app_other a b y kvs :
+  a <> b -> find_field b (kvs ++ [(a, y)]) = find_field b kvs.
+Proof.
+  intros Hab. induction kvs as [|[k v] t IH]; cbn.
+  - destruct (String.eqb a b) eqn:E; [apply String.eqb_eq in E; contradiction|reflexivity].
+  - destruct (String.eqb k b); auto.
+Qed.
+
+Lemma set_first_app_same name y z kvs :
+  find_field name kvs = None -> set_first name z (kvs ++ [(name, y)]) = (kvs ++ [(name, z)])%list.
+Proof.
+  induction kvs as [|[k v] t IH]; cbn; intros H.
+  - now rewrite String.eqb_refl.
+  - destruct (String.eqb k name); [discriminate|now rewrite IH].
+Qed.
+
+Lemma remove_first_absent name kvs :
+  find_field name kvs = None -> remove_first name kvs = kvs.
+Proof.
+  induction kvs as [|[k v] t IH]; cbn; intros H; [reflexivity|].
+  destruct (String.eqb k name); [discriminate|now rewrite IH].
+Qed.
+
+Lemma find_field_remove_first_other a b kvs :
+  a <> b -> find_field b (remove_first a kvs) = find_field b kvs.
+Proof.
+  intros Hab. induction kvs as [|[k v] t IH]; cbn; [reflexivity|].
+  destruct (String.eqb k a) eqn:E; cbn.
+  - apply String.eqb_eq in E; subst k.
+    destruct (String.eqb a b) eqn:E2; [apply String.eqb_eq in E2; contradiction|reflexivity].
+  - destruct (String.eqb k b); auto.
+Qed.
+
+(* ---------- positional lists ---------- *)
+Lemma length_replace_nth {A} i (y : A) l : List.length (replace_nth i y l) = List.length l.
+Proof. revert i; induction l as [|h t IH]; intros [|i]; cbn; auto. Qed.
+
+Lemma nth_error_replace_nth_same {A} (l : list A) i x y :
+  nth_error l i = Some x -> nth_error (replace_nth i y l) i = Some y.
+Proof. revert i; induction l as [|h t IH]; intros [|i]; cbn; intros H; try discriminate; auto. Qed.
+
+Lemma nth_error_replace_nth_other {A} (l : list A) i j y :
+  i <> j -> nth_error (replace_nth i y l) j = nth_error l j.
+Proof.
+  revert i j; induction l as [|h t IH]; intros [|i] [|j] H; cbn; auto; try congruence.
+Qed.
+
+Lemma replace_nth_replace_nth {A} (l : list A) i y z :
+  replace_nth i z (replace_nth i y l) = replace_nth i z l.
+Proof. revert i; induction l as [|h t IH]; intros [|i]; cbn; auto. now rewrite IH. Qed.
+
+Lemma nth_error_app_last {A} (l : list A) y : nth_error (l ++ [y]) (List.length l) = Some y.
+Proof. induction l; cbn; auto. Qed.
+
+Lemma replace_nth_app_last {A} (l : list A) y z : replace_nth (List.length l) z (l ++ [y]) = (l ++ [z])%list.
+Proof. induction l; cbn; auto. now rewrite IHl. Qed.
+
+Lemma nth_error_app_old {A} (l : list A) y j x : nth_error l j = Some x -> nth_error (l ++ [y]) j = Some x.
+Proof. revert j; induction l as [|h t IH]; intros [|j]; cbn; intros H; try discriminate; auto. Qed.
+
+Lemma find_index_some {A} (f : A -> bool) l i :
+  find_index f l = Some i -> exists e, nth_error l i = Some e /\ f e = true.
+Proof.
+  revert i; induction l as [|h t IH]; cbn; intros i H; [discriminate|].
+  destruct (f h) eqn:E.
+  - inv H. exists h; auto.
+  - destruct (find_index f t) as [j|] eqn:F; cbn in H; inv H.
+    destruct (IH j eq_refl) as [e [H1 H2]]. exists e; auto.
+Qed.
+
+Lemma find_index_replace_nth_same {A} (f : A -> bool) l i y :
+  find_index f l = Some i -> f y = true -> find_index f (replace_nth i y l) = Some i.
+Proof.
+  revert i; induction l as [|h t IH]; cbn; intros i H Hy; [discriminate|].
+  destruct (f h) eqn:E.
+  - inv H. cbn. now rewrite Hy.
+  - destruct (find_index f t) as [j|] eqn:F; cbn in H; inv H.
+    cbn. rewrite E. now rewrite (IH j eq_refl Hy).
+Qed.
+
+Lemma find_index_replace_nth_other {A} (g : A -> bool) l i x y :
+  nth_error l i = Some x -> g x = false -> g y = false ->
+  find_index g (replace_nth i y l) = find_index g l.
+Proof.
+  revert i; induction l as [|h t IH]; intros [|i]; cbn; intros H Hx Hy; try discriminate.
+  - inv H. now rewrite Hx, Hy.
+  - destruct (g h); auto. now rewrite (IH i H Hx Hy).
+Qed.
+
+Lemma find_index_app_same {A} (f : A -> bool) l y :
+  find_index f l = None -> f y = true -> find_index f (l ++ [y]) = Some (List.length l).
+Proof.
+  induction l as [|h t IH]; cbn; intros H Hy.
+  - now rewrite Hy.
+  - destruct (f h); [discriminate|].
+    destruct (find_index f t) eqn:F; cbn in H; [discriminate|]. now rewrite IH.
+Qed.
+
+Lemma find_index_app_other {A} (g : A -> bool) l y :
+  g y = false -> find_index g (l ++ [y]) = find_index g l.
+Proof.
+  intros Hy. induction l as [|h t IH]; cbn.
+  - now rewrite Hy.
+  - destruct (g h); auto. now rewrite IH.
+Qed.
+
+Lemma find_index_lt {A} (f : A -> bool) l i : find_index f l = Some i -> i < List.length l.
+Proof.
+  intros H. destruct (find_index_some _ _ _ H) as [e [H1 _]].
+  apply nth_error_Some. congruence.
+Qed.
+
+(* ---------- selectors ---------- *)
+Lemma sel_match_excl nm v w e : sel_match nm v e = true -> v <> w -> sel_match nm w e = false.
+Proof.
+  unfold sel_match. intros H Hvw.
+  destruct (String.eqb nm "").
+  - apply String.eqb_eq in H. apply String.eqb_neq. congruence.
+  - destruct e as [| kvs |]; auto.
+    destruct (find_field nm kvs); auto.
+    apply String.eqb_eq in H. apply String.eqb_neq. congruence.
+Qed.
+
+Lemma sel_match_sel_new nm v : sel_match nm v (sel_new nm v) = true.
+Proof.
+  unfold sel_match, sel_new. destruct (String.eqb nm "") eqn:E; cbn.
+  - apply String.eqb_refl.
+  - rewrite String.eqb_refl. apply String.eqb_refl.
+Qed.
+
+(* ---------- the one-level lens: child / plug ---------- *)
+(* what the value written back must satisfy for the part to select it again *)
+Definition keeps (p : part) (y : node) : Prop :=
+  match p with PSel nm v => sel_match nm v y = true | _ => True end.
+
+Lemma plug_child p n x : child p n = Some x -> plug p n x = n.
+Proof.
+  destruct p, n; cbn; intros H; try discriminate.
+  - now rewrite set_first_same.
+  - now rewrite replace_nth_same.
+  - destruct es; [discriminate|]. now rewrite replace_nth_same.
+  - destruct (find_index (sel_match nm v) es); [|discriminate]. now rewrite replace_nth_same.
+Qed.
+
+Lemma child_plug p n x y : child p n = Some x -> keeps p y -> child p (plug p n y) = Some y.
+Proof.
+  destruct p, n; cbn; intros H K; try discriminate.
+  - eapply find_field_set_first_same; eauto.
+  - eapply nth_error_replace_nth_same; eauto.
+  - destruct es as [|e es]; [discriminate|].
+    rewrite length_replace_nth.
+    destruct (replace_nth (List.length (e :: es) - 1) y (e :: es)) eqn:R.
+    + apply (f_equal (@List.length node)) in R. rewrite length_replace_nth in R. discriminate.
+    + rewrite <- R. eapply nth_error_replace_nth_same; eauto.
+  - destruct (find_index (sel_match nm v) es) as [i|] eqn:F; [|discriminate].
+    cbn. rewrite (find_index_replace_nth_same _ _ _ _ F K).
+    eapply nth_error_replace_nth_same; eauto.
+Qed.
+
+Lemma plug_plug p n x y z : child p n = Some x -> keeps p y -> plug p (plug p n y) z = plug p n z.
+Proof.
+  destruct p, n; cbn; intros H K; try discriminate.
+  - now rewrite set_first_set_first.
+  - now rewrite replace_nth_replace_nth.
+  - now rewrite length_replace_nth, replace_nth_replace_nth.
+  - destruct (find_index (sel_match nm v) es) as [i|] eqn:F; [|discriminate].
+    cbn. rewrite (find_index_replace_nth_same _ _ _ _ F K).
+    now rewrite replace_nth_replace_nth.
+Qed.
+
+Lemma child_plug_apart p q n x y :
+  apart p q -> child p n = Some x -> keeps p y -> child q (plug p n y) = child q n.
+Proof.
+  intros Hpq. destruct Hpq as [a b Hab|i j Hij|nm v w Hvw]; destruct n; cbn; intros H K; try discriminate.
+  - now apply find_field_set_first_other.
+  - now apply nth_error_replace_nth_other.
+  - destruct (find_index (sel_match nm v) es) as [i|] eqn:F; [|discriminate].
+    cbn.
+    destruct (find_index_some _ _ _ F) as [e [He Me]].
+    assert (Hx : x = e) by congruence. subst e.
+    rewrite (find_index_replace_nth_other (sel_match nm w) es i x y He
+               (sel_match_excl _ _ _ _ Me Hvw) (sel_match_excl _ _ _ _ K Hvw)).
+    destruct (find_index (sel_match nm w) es) as [j|] eqn:G; [|reflexivity].
+    apply nth_error_replace_nth_other.
+    intros ->. destruct (find_index_some _ _ _ G) as [e' [He' Me']].
+    assert (e' = x) by congruence. subst e'.
+    rewrite (sel_match_excl _ _ _ _ Me Hvw) in Me'. discriminate.
+Qed.
+
+Lemma child_sel_matches nm v n x : child (PSel nm v) n = Some x -> sel_match nm v x = true.
+Proof.
+  destruct n; cbn; try discriminate.
+  destruct (find_index (sel_match nm v) es) as [i|] eqn:F; [|discriminate].
+  intros H. destruct (find_index_some _ _ _ F) as [e [He Me]]. congruence.
+Qed.
+
+(* ---------- walk, one step ---------- *)
+Lemma walk_found {A} cr p ps (k : node -> res (node * A)) n x :
+  child p n = Some x ->
+  walk cr (p :: ps) k n = (do r <- walk cr ps k x; Ok (plug p n (fst r), snd r)).
+Proof.
+  destruct p, n; cbn; intros H; try discriminate.
+  - now rewrite H.
+  - now rewrite H.
+  - destruct es as [|e es]; [discriminate|]. cbn in H |- *. now rewrite H.
+  - destruct (find_index (sel_match nm v) es) as [i|]; [|discriminate]. now rewrite H.
+Qed.
+
+Lemma lookup_found p qs n x : child p n = Some x -> lookup (p :: qs) n = lookup qs x.
+Proof.
+  intros H. unfold lookup. rewrite (walk_found _ _ _ _ _ _ H).
+  destruct (walk None qs k_get x) as [[d r]| | |]; reflexivity.
+Qed.
+
+Lemma no_null_child p ps n x :
+  no_null_path (p :: ps) n = true -> child p n = Some x -> no_null_path ps x = true.
+Proof. cbn. intros H C. rewrite C in H. apply andb_true_iff in H. tauto. Qed.
+
+Lemma no_null_here ps n : no_null_path ps n = true -> is_null n = false.
+Proof. destruct ps; cbn; intros H; apply andb_true_iff in H; destruct H as [H _]; now apply negb_true_iff in H. Qed.
+
+(* A walk along a NON-EMPTY path never changes the constructor class of the node it starts from,
+   and leaves a scalar untouched (so [node_value] is preserved at every interior position). *)
+Lemma walk_nonempty_shape {A} cr p ps (k : node -> res (node * A)) n n' r :
+  walk cr (p :: ps) k n = Ok (n', r) ->
+  match n with
+  | Scalar _ _ _ => n' = n
+  | Map _ => is_map n' = true
+  | Seq _ => is_seq n' = true
+  end.
+Proof.
+  intros H. destruct p, n; cbn in H;
+    repeat match type of H with
+           | Err = Ok _ => discriminate
+           | Panic = Ok _ => discriminate
+           | Ok _ = Ok _ => inv H; try reflexivity
+           | context [bind ?c _] => destruct c as [[? ?]| | |] eqn:?; cbn in H
+           | context [match ?c with _ => _ end] => destruct c eqn:?; cbn in H
+           | context [if ?c then _ else _] => destruct c eqn:?; cbn in H
+           end; try reflexivity; try discriminate.
+Qed.
+
+Lemma walk_nonempty_value {A} cr p ps (k : node -> res (node * A)) n n' r :
+  walk cr (p :: ps) k n = Ok (n', r) -> node_value n' = node_value n.
+Proof.
+  intros H. apply walk_nonempty_shape in H. destruct n; subst; auto; destruct n'; try discriminate; auto.
+Qed.
+
+Lemma stable_tail {A} p ps (k : node -> res (node * A)) : stable (p :: ps) k -> stable ps k.
+Proof. destruct p; cbn; tauto. Qed.
+
+(* (H1) at work: a selector that matched the element before the walk still matches it afterwards *)
+Lemma sel_stable {A} cr ps (k : node -> res (node * A)) e e' r nm v :
+  walk cr ps k e = Ok (e', r) -> sel_match nm v e = true -> stable_after nm v ps k ->
+  sel_match nm v e' = true.
+Proof.
+  intros W M S. destruct ps as [|p rest].
+  - cbn in W. destruct (k e) as [[y a]| | |] eqn:K; cbn in W; inv W. eapply S; eauto.
+  - unfold sel_match in *. destruct (String.eqb nm "") eqn:E.
+    + now rewrite (walk_nonempty_value _ _ _ _ _ _ _ W).
+    + destruct e as [|kvs|]; try discriminate.
+      destruct (find_field nm kvs) as [x|] eqn:Fx; [|discriminate].
+      destruct p; cbn in W; try discriminate.
+      destruct (find_field k0 kvs) as [y|] eqn:Fy.
+      * destruct (walk cr rest k y) as [[y' r']| | |] eqn:W'; cbn in W; inv W.
+        destruct (String.eqb_spec k0 nm) as [->|Hne].
+        -- rewrite (find_field_set_first_same _ _ _ _ Fy).
+           assert (y = x) by congruence; subst y.
+           destruct rest as [|p2 rest'].
+           ++ cbn in W'. destruct (k x) as [[z a]| | |] eqn:K; cbn in W'; inv W'.
+              cbn in S. rewrite (S eq_refl (proj1 (String.eqb_neq _ _) E) _ _ _ K). exact M.
+           ++ now rewrite (walk_nonempty_value _ _ _ _ _ _ _ W').
+        -- rewrite (find_field_set_first_other _ _ _ _ Hne), Fx. exact M.
+      * assert (Hne : k0 <> nm) by (intros ->; congruence).
+        destruct cr as [leaf|].
+        -- destruct (walk (Some leaf) rest k _) as [[y' r']| | |] eqn:W'; cbn in W; inv W.
+           rewrite (find_field_app_other _ _ _ _ Hne), Fx. exact M.
+        -- inv W. rewrite Fx. exact M.
+Qed.
+
+Lemma keeps_after_walk {A} cr p ps (k : node -> res (node * A)) n x x' r :
+  child p n = Some x -> walk cr ps k x = Ok (x', r) -> stable (p :: ps) k -> keeps p x'.
+Proof.
+  intros C W S. destruct p; cbn; auto.
+  eapply sel_stable; eauto.
+  - eapply child_sel_matches; eauto.
+  - cbn in S. tauto.
+Qed.
+
+(* freshly created nodes contain no null *)
+Lemma no_null_empty_of ps kd : no_null_path ps (empty_of kd) = true.
+Proof.
+  destruct ps as [|p ps]; destruct kd; try reflexivity; destruct p; try reflexivity;
+    cbn; destruct i; reflexivity.
+Qed.
+
+Lemma no_null_sel_new ps nm v : no_null_path ps (sel_new nm v) = true.
+Proof.
+  unfold sel_new. destruct (String.eqb nm "").
+  - destruct ps as [|p ps]; [reflexivity|destruct p; reflexivity].
+  - destruct ps as [|p ps]; [reflexivity|]. destruct p; try reflexivity.
+    cbn. destruct (String.eqb nm k); [|reflexivity].
+    destruct ps as [|p ps]; [reflexivity|destruct p; reflexivity].
+Qed.
+
+(* inversion of a successful step whose child is absent *)
+Lemma walk_missing {A} cr p ps (k : node -> res (node * A)) n n' r :
+  child p n = None -> walk cr (p :: ps) k n = Ok (n', r) ->
+  (n' = n /\ r = None)
+  \/ (exists name kvs leaf y, p = PKey name /\ n = Map kvs /\ cr = Some leaf /\ find_field name kvs = None /\
+        walk cr ps k (empty_of (kind_before (hd_error ps) leaf)) = Ok (y, r) /\ n' = Map (kvs ++ [(name, y)]))
+  \/ (exists nm v es leaf y, p = PSel nm v /\ n = Seq es /\ cr = Some leaf /\
+        find_index (sel_match nm v) es = None /\
+        walk cr ps k (sel_new nm v) = Ok (y, r) /\ n' = Seq (es ++ [y]))
+  \/ (exists nm v leaf y, p = PSel nm v /\ is_null n = true /\ cr = Some leaf /\
+        walk cr ps k (sel_new nm v) = Ok (y, r) /\ n' = n).
+Proof.
+  intros C H. destruct p; try (cbn in H; discriminate).
+  - (* PKey *) destruct n as [t s v|kvs|es]; cbn in H, C.
+    + destruct t; inv H; auto.
+    + rewrite C in H. destruct cr as [leaf|]; [|inv H; auto].
+      destruct (walk (Some leaf) ps k _) as [[y r']| | |] eqn:W; cbn in H; inv H.
+      right; left. exists k0, kvs, leaf, y. auto 10.
+    + discriminate.
+  - (* PIdx *) destruct n as [t s v|kvs|es]; cbn in H, C.
+    + destruct t; inv H; auto.
+    + discriminate.
+    + rewrite C in H. inv H; auto.
+  - (* PLast *) destruct n as [t s v|kvs|es]; cbn in H, C.
+    + destruct t; inv H; auto.
+    + discriminate.
+    + destruct es as [|e es]; [inv H; auto|]. cbn in C, H. rewrite C in H. inv H; auto.
+  - (* PSel *) destruct n as [t s v0|kvs|es]; cbn in H, C.
+    + destruct t; try discriminate.
+      destruct cr as [leaf|]; [|inv H; auto].
+      destruct (walk (Some leaf) ps k _) as [[y r']| | |] eqn:W; cbn in H; inv H.
+      right; right; right. exists nm, v, leaf, y. auto 10.
+    + discriminate.
+    + destruct (find_index (sel_match nm v) es) as [i|] eqn:F.
+      * rewrite C in H. discriminate.
+      * destruct cr as [leaf|]; [|inv H; auto].
+        destruct (walk (Some leaf) ps k _) as [[y r']| | |] eqn:W; cbn in H; inv H.
+        right; right; left. exists nm, v, es, leaf, y. auto 10.
+Qed.
+
+Lemma walk_get_found p ps n y z :
+  child p n = Some y -> walk None ps k_get y = Ok (y, Some z) ->
+  walk None (p :: ps) k_get n = Ok (n, Some z).
+Proof. intros C W. rewrite (walk_found _ _ _ _ _ _ C), W. cbn. now rewrite (plug_child _ _ _ C). Qed.
+
+(* ---------- PUT-GET ---------- *)
+Lemma walk_put_get {A} cr ps (k : node -> res (node * A)) :
+  stable ps k ->
+  forall n n' a, no_null_path ps n = true -> walk cr ps k n = Ok (n', Some a) ->
+  exists x x', is_null x = false /\ k x = Ok (x', a) /\ walk None ps k_get n' = Ok (n', Some x').
+Proof.
+  induction ps as [|p ps IH]; intros S n n' a NN H.
+  - cbn in H. destruct (k n) as [[x' a']| | |] eqn:K; cbn in H; inv H.
+    exists n, n'. apply no_null_here in NN. auto.
+  - pose proof (stable_tail _ _ _ S) as S'.
+    destruct (child p n) as [x|] eqn:C.
+    + rewrite (walk_found _ _ _ _ _ _ C) in H.
+      destruct (walk cr ps k x) as [[x' r']| | |] eqn:W; cbn in H; inv H.
+      destruct (IH S' _ _ _ (no_null_child _ _ _ _ NN C) W) as [x0 [x0' [N0 [K G]]]].
+      exists x0, x0'. split; [exact N0|]. split; [exact K|].
+      eapply walk_get_found; [|exact G].
+      eapply child_plug; eauto. eapply keeps_after_walk; eauto.
+    + destruct (walk_missing _ _ _ _ _ _ _ C H) as
+        [[_ Hr]|[(name & kvs & leaf & y & -> & -> & -> & F & W & ->)
+                |[(nm & v & es & leaf & y & -> & -> & -> & F & W & ->)
+                 |(nm & v & leaf & y & -> & N & _)]]].
+      * discriminate.
+      * destruct (IH S' _ _ _ (no_null_empty_of _ _) W) as [x0 [x0' [N0 [K G]]]].
+        exists x0, x0'. split; [exact N0|]. split; [exact K|].
+        eapply walk_get_found; [|exact G]. cbn. now apply find_field_app_same.
+      * destruct (IH S' _ _ _ (no_null_sel_new _ _ _) W) as [x0 [x0' [N0 [K G]]]].
+        exists x0, x0'. split; [exact N0|]. split; [exact K|].
+        eapply walk_get_found; [|exact G]. cbn.
+        assert (M : sel_match nm v y = true).
+        { eapply sel_stable; [exact W|apply sel_match_sel_new|]. cbn in S; tauto. }
+        rewrite (find_index_app_same _ _ _ F M). apply nth_error_app_last.
+      * apply no_null_here in NN. congruence.
+Qed.
+
+(* ---------- GET-PUT ---------- *)
+Lemma lookup_missing_not_found p ps n x : child p n = None -> lookup (p :: ps) n <> Ok (Some x).
+Proof.
+  intros C H. unfold lookup in H.
+  destruct (walk None (p :: ps) k_get n) as [[n' r]| | |] eqn:W; cbn in H; try discriminate.
+  destruct (walk_missing _ _ _ _ _ _ _ C W) as
+    [[_ ->]|[(? & ? & ? & ? & _ & _ & ? & _)|[(? & ? & ? & ? & ? & _ & _ & ? & _)|(? & ? & ? & ? & _ & _ & ? & _)]]];
+    discriminate.
+Qed.
+
+Lemma walk_get_put {A} cr ps (k : node -> res (node * A)) :
+  forall n x a, lookup ps n = Ok (Some x) -> k x = Ok (x, a) -> walk cr ps k n = Ok (n, Some a).
+Proof.
+  induction ps as [|p ps IH]; intros n x a L K.
+  - cbn in L. inv L. cbn. now rewrite K.
+  - destruct (child p n) as [y|] eqn:C.
+    + rewrite (lookup_found _ _ _ _ C) in L.
+      rewrite (walk_found _ _ _ _ _ _ C), (IH _ _ _ L K). cbn. now rewrite (plug_child _ _ _ C).
+    + exfalso. eapply lookup_missing_not_found; eauto.
+Qed.
+
+(* ---------- PUT-PUT (fusion) ---------- *)
+Lemma walk_fusion {A B} cr ps (k1 : node -> res (node * A)) (k2 : node -> res (node * B)) :
+  stable ps k1 ->
+  forall n n1 a1, no_null_path ps n = true -> walk cr ps k1 n = Ok (n1, Some a1) ->
+  walk cr ps k2 n1 = walk cr ps (kseq k1 k2) n.
+Proof.
+  induction ps as [|p ps IH]; intros S n n1 a1 NN H.
+  - cbn in H. destruct (k1 n) as [[x' a']| | |] eqn:K; cbn in H; inv H.
+    cbn. unfold kseq. now rewrite K.
+  - pose proof (stable_tail _ _ _ S) as S'.
+    destruct (child p n) as [x|] eqn:C.
+    + rewrite (walk_found _ _ _ _ _ _ C) in H.
+      destruct (walk cr ps k1 x) as [[x1 r1]| | |] eqn:W; cbn in H; inv H.
+      assert (Kp : keeps p x1) by (eapply keeps_after_walk; eauto).
+      rewrite (walk_found _ _ _ _ _ _ (child_plug _ _ _ _ C Kp)).
+      rewrite (walk_found _ _ _ _ _ _ C).
+      rewrite (IH S' _ _ _ (no_null_child _ _ _ _ NN C) W).
+      destruct (walk cr ps (kseq k1 k2) x) as [[z rz]| | |]; cbn; auto.
+      now rewrite (plug_plug _ _ _ _ _ C Kp).
+    + destruct (walk_missing _ _ _ _ _ _ _ C H) as
+        [[_ Hr]|[(name & kvs & leaf & y & -> & -> & -> & F & W & ->)
+                |[(nm & v & es & leaf & y & -> & -> & -> & F & W & ->)
+                 |(nm & v & leaf & y & -> & N & _)]]].
+      * discriminate.
+      * assert (C1 : child (PKey name) (Map (kvs ++ [(name, y)])) = Some y)
+          by (cbn; now apply find_field_app_same).
+        rewrite (walk_found _ _ _ _ _ _ C1).
+        rewrite (IH S' _ _ _ (no_null_empty_of _ _) W).
+        cbn. rewrite F.
+        destruct (walk (Some leaf) ps (kseq k1 k2) _) as [[z rz]| | |]; cbn; auto.
+        now rewrite (set_first_app_same _ _ _ _ F).
+      * assert (M : sel_match nm v y = true).
+        { eapply sel_stable; [exact W|apply sel_match_sel_new|]. cbn in S; tauto. }
+        assert (C1 : child (PSel nm v) (Seq (es ++ [y])) = Some y).
+        { cbn. rewrite (find_index_app_same _ _ _ F M). apply nth_error_app_last. }
+        rewrite (walk_found _ _ _ _ _ _ C1).
+        rewrite (IH S' _ _ _ (no_null_sel_new _ _ _) W).
+        cbn. rewrite F.
+        destruct (walk (Some leaf) ps (kseq k1 k2) _) as [[z rz]| | |]; cbn; auto.
+        rewrite (find_index_app_same _ _ _ F M). now rewrite replace_nth_app_last.
+      * apply no_null_here in NN. congruence.
+Qed.
+
+(* ---------- FRAME ---------- *)
+Definition same_container (n n' : node) : Prop :=
+  match n, n' with Map _, Map _ | Seq _, Seq _ => True | _, _ => False end.
+
+Lemma lookup_cons_congr q qs n n' :
+  child q n' = child q n -> same_container n n' -> lookup (q :: qs) n' = lookup (q :: qs) n.
+Proof.
+  intros E SC. destruct (child q n) as [z|] eqn:C.
+  - now rewrite (lookup_found _ _ _ _ E), (lookup_found _ _ _ _ C).
+  - unfold lookup.
+    destruct q; destruct n, n'; cbn in SC; try contradiction; cbn in E, C |- *; try reflexivity.
+    + now rewrite E, C.
+    + now rewrite E, C.
+    + destruct es0 as [|e0 es0]; destruct es as [|e es]; cbn in *;
+        try rewrite E; try rewrite C; reflexivity.
+    + destruct (find_index (sel_match nm v) es0) as [i|] eqn:F0;
+        [destruct (find_index_some _ _ _ F0) as [? [? _]]; congruence|].
+      destruct (find_index (sel_match nm v) es) as [j|] eqn:F1;
+        [destruct (find_index_some _ _ _ F1) as [? [? _]]; congruence|].
+      reflexivity.
+Qed.
+
+Lemma no_sel_key_read_tail q qs : no_sel_key_read (q :: qs) -> no_sel_key_read qs.
+Proof. destruct q; cbn; tauto. Qed.
+
+(* The frame law, in the general form: q diverges from the write path p at some part, or agrees with all
+   of p and continues with a rest on which the continuation k itself has the frame property. *)
+Section FrameEnd.
+  Context {A : Type}.
+  Variable k : node -> res (node * A).
+  Variable ok_end : list part -> Prop.
+  Hypothesis E1 : forall qs x x' a, ok_end qs -> k x = Ok (x', a) -> lookup qs x' = lookup qs x.
+  Hypothesis E2 : forall qs leaf x' a, ok_end qs -> k (empty_of leaf) = Ok (x', a) ->
+                                       lookup qs (empty_of leaf) = Ok None.
+  Hypothesis E3 : forall qs nm v x' a, ok_end qs -> k (sel_new nm v) = Ok (x', a) ->
+                                       match qs with PKey name :: _ => name <> nm | _ => True end ->
+                                       lookup qs (sel_new nm v) = Ok None.
+
+  (* a path diverging from the one along which a fresh node was populated finds nothing in the fresh node *)
+  Lemma lookup_fresh_none cr ps qs leaf y r :
+    diverges_end ok_end ps qs ->
+    walk cr ps k (empty_of (kind_before (hd_error ps) leaf)) = Ok (y, r) ->
+    lookup qs (empty_of (kind_before (hd_error ps) leaf)) = Ok None.
+  Proof.
+    intros D W. destruct D as [qs Hq|p q ps qs Hpq|p ps qs D].
+    - cbn in *. destruct (k (empty_of leaf)) as [[x' a]| | |] eqn:K; cbn in W; inv W. eapply E2; eauto.
+    - destruct Hpq; cbn in *; try reflexivity. destruct j; reflexivity.
+    - destruct p; cbn in *; try reflexivity; try discriminate. destruct i; reflexivity.
+  Qed.
+
+  Lemma lookup_sel_new_none cr ps qs nm v y r :
+    diverges_end ok_end ps qs ->
+    walk cr ps k (sel_new nm v) = Ok (y, r) ->
+    match qs with PKey name :: _ => name <> nm | _ => True end ->
+    lookup qs (sel_new nm v) = Ok None.
+  Proof.
+    intros D W NK.
+    destruct D as [qs Hq|p q ps qs Hpq|p ps qs D].
+    { cbn in W. destruct (k (sel_new nm v)) as [[x' a]| | |] eqn:K; cbn in W; inv W. eapply E3; eauto. }
+    all: unfold sel_new in *; destruct (String.eqb nm "") eqn:E.
+    - destruct p; cbn in W; discriminate.
+    - assert (forall b, b <> nm -> String.eqb nm b = false) as Hne
+          by (intros b Hb; apply String.eqb_neq; congruence).
+      destruct Hpq; cbn in W; try discriminate. unfold lookup; cbn. now rewrite (Hne _ NK).
+    - destruct p; cbn in W; discriminate.
+    - assert (forall b, b <> nm -> String.eqb nm b = false) as Hne
+          by (intros b Hb; apply String.eqb_neq; congruence).
+      destruct p; cbn in W; try discriminate. unfold lookup; cbn. now rewrite (Hne _ NK).
+  Qed.
+
+  Lemma walk_frame_end cr ps :
+    stable ps k ->
+    forall qs n n' r, diverges_end ok_end ps qs -> (no_sel_key_read qs \/ lookup qs n <> Ok None) ->
+    walk cr ps k n = Ok (n', r) -> lookup qs n' = lookup qs n.
+  Proof.
+    induction ps as [|p ps IH]; intros S qs n n' r D SC H.
+    { inversion D; subst. cbn in H. destruct (k n) as [[x' a]| | |] eqn:K; cbn in H; inv H. eapply E1; eauto. }
+    pose proof (stable_tail _ _ _ S) as S'.
+    inversion D as [|p0 q ps0 qs' Hpq|p0 ps0 qs' D']; subst; clear D.
+    - (* the paths part here *)
+      destruct (child p n) as [x|] eqn:C.
+      + rewrite (walk_found _ _ _ _ _ _ C) in H.
+        destruct (walk cr ps k x) as [[x' r']| | |] eqn:W; cbn in H; inv H.
+        apply lookup_cons_congr.
+        * eapply child_plug_apart; eauto. eapply keeps_after_walk; eauto.
+        * destruct Hpq; destruct n; cbn in C |- *; try discriminate; auto.
+          destruct (find_index (sel_match nm v) es); [exact I|discriminate].
+      + destruct (walk_missing _ _ _ _ _ _ _ C H) as
+          [[-> _]|[(name & kvs & leaf & y & -> & -> & -> & F & W & ->)
+                  |[(nm & v & es & leaf & y & -> & -> & -> & F & W & ->)
+                   |(nm & v & leaf & y & -> & N & _ & _ & ->)]]]; try reflexivity.
+        * inversion Hpq; subst. apply lookup_cons_congr; [|exact I].
+          cbn. now apply find_field_app_other.
+        * inversion Hpq; subst. apply lookup_cons_congr; [|exact I].
+          assert (M : sel_match nm v y = true).
+          { eapply sel_stable; [exact W|apply sel_match_sel_new|]. cbn in S; tauto. }
+          cbn. rewrite (find_index_app_other _ _ _ (sel_match_excl _ _ _ _ M H3)).
+          destruct (find_index (sel_match nm w) es) as [j|] eqn:G; [|reflexivity].
+          destruct (find_index_some _ _ _ G) as [e [He _]].
+          rewrite He. eapply nth_error_app_old; eauto.
+    - (* common first part *)
+      destruct (child p n) as [x|] eqn:C.
+      + rewrite (walk_found _ _ _ _ _ _ C) in H.
+        destruct (walk cr ps k x) as [[x' r']| | |] eqn:W; cbn in H; inv H.
+        assert (Kp : keeps p x') by (eapply keeps_after_walk; eauto).
+        rewrite (lookup_found _ _ _ _ (child_plug _ _ _ _ C Kp)), (lookup_found _ _ _ _ C).
+        eapply IH; eauto.
+        destruct SC as [SC|SC]; [left; eapply no_sel_key_read_tail; eauto|right].
+        now rewrite (lookup_found _ _ _ _ C) in SC.
+      + destruct (walk_missing _ _ _ _ _ _ _ C H) as
+          [[-> _]|[(name & kvs & leaf & y & -> & -> & -> & F & W & ->)
+                  |[(nm & v & es & leaf & y & -> & -> & -> & F & W & ->)
+                   |(nm & v & leaf & y & -> & N & _ & _ & ->)]]]; try reflexivity.
+        * assert (L0 : lookup (PKey name :: qs') (Map kvs) = Ok None) by (unfold lookup; cbn; now rewrite F).
+          destruct SC as [SC|SC]; [|congruence].
+          rewrite L0.
+          assert (C1 : child (PKey name) (Map (kvs ++ [(name, y)])) = Some y)
+            by (cbn; now apply find_field_app_same).
+          rewrite (lookup_found _ _ _ _ C1).
+          rewrite (IH S' qs' _ _ _ D' (or_introl (no_sel_key_read_tail _ _ SC)) W).
+          eapply lookup_fresh_none; eauto.
+        * assert (L0 : lookup (PSel nm v :: qs') (Seq es) = Ok None) by (unfold lookup; cbn; now rewrite F).
+          destruct SC as [SC|SC]; [|congruence].
+          rewrite L0.
+          assert (M : sel_match nm v y = true).
+          { eapply sel_stable; [exact W|apply sel_match_sel_new|]. cbn in S; tauto. }
+          assert (C1 : child (PSel nm v) (Seq (es ++ [y])) = Some y).
+          { cbn. rewrite (find_index_app_same _ _ _ F M). apply nth_error_app_last. }
+          rewrite (lookup_found _ _ _ _ C1).
+          rewrite (IH S' qs' _ _ _ D' (or_introl (no_sel_key_read_tail _ _ SC)) W).
+          eapply lookup_sel_new_none; eauto.
+          cbn in SC. destruct qs' as [|[] ?]; tauto.
+  Qed.
+End FrameEnd.
+
+Lemma diverges_diverges_end ps qs : diverges ps qs -> diverges_end (fun _ => False) ps qs.
+Proof. induction 1; [now apply dve_here|now apply dve_later]. Qed.
+
+Lemma walk_frame {A} cr ps (k : node -> res (node * A)) :
+  stable ps k ->
+  forall qs n n' r, diverges ps qs -> (no_sel_key_read qs \/ lookup qs n <> Ok None) ->
+  walk cr ps k n = Ok (n', r) -> lookup qs n' = lookup qs n.
+Proof.
+  intros S qs n n' r D. apply (walk_frame_end k (fun _ => False)); try tauto.
+  now apply diverges_diverges_end.
+Qed.
+
+(* ---------- absent children without creation; composition of lookups ---------- *)
+Definition miss {A} (p : part) (n : node) : res (node * option A) :=
+  match p with
+  | PKey _ => match n with Map _ => Ok (n, None) | _ => if is_null n then Ok (n, None) else Err end
+  | PIdx _ => match n with Seq _ => Ok (n, None) | _ => if is_null n then Ok (n, None) else Err end
+  | PLast => match n with Seq _ => Ok (n, None) | _ => if is_null n then Ok (n, None) else Err end
+  | PSel _ _ => match n with Seq _ => Ok (n, None) | _ => if is_null n then Ok (n, None) else Err end
+  | _ => Err
+  end.
+
+Lemma walk_missing_nocreate {A} p ps (k : node -> res (node * A)) n :
+  child p n = None -> walk None (p :: ps) k n = miss p n.
+Proof.
+  intros C. destruct p; destruct n as [t s v0|kvs|es]; cbn in C |- *; try reflexivity; try discriminate.
+  - now rewrite C.
+  - now rewrite C.
+  - destruct es as [|e es]; [reflexivity|]. cbn in C |- *. now rewrite C.
+  - destruct (find_index (sel_match nm v) es) as [i|] eqn:F; [|reflexivity].
+    destruct (find_index_some _ _ _ F) as [? [? _]]; congruence.
+Qed.
+
+Lemma lookup_app ps qs n :
+  lookup (ps ++ qs) n =
+  match lookup ps n with
+  | Ok (Some x) => lookup qs x
+  | Ok None => Ok None
+  | Err => Err
+  | Panic => Panic
+  | Diverge => Diverge
+  end.
+Proof.
+  revert n; induction ps as [|p ps IH]; intros n; [reflexivity|].
+  destruct (child p n) as [x|] eqn:C.
+  - cbn [app]. now rewrite !(lookup_found _ _ _ _ C).
+  - cbn [app]. unfold lookup at 1 2. rewrite !(walk_missing_nocreate _ _ _ _ C).
+    destruct p; destruct n as [t s v0|kvs|es]; cbn; try reflexivity; try (destruct t; reflexivity).
+Qed.
+
+Lemma lookup_none_walk {A} ps (k : node -> res (node * A)) :
+  forall n, lookup ps n = Ok None -> walk None ps k n = Ok (n, None).
+Proof.
+  induction ps as [|p ps IH]; intros n L; [discriminate|].
+  destruct (child p n) as [x|] eqn:C.
+  - rewrite (lookup_found _ _ _ _ C) in L.
+    rewrite (walk_found _ _ _ _ _ _ C), (IH _ L). cbn. now rewrite (plug_child _ _ _ C).
+  - unfold lookup in L. rewrite (walk_missing_nocreate _ _ _ _ C) in L. rewrite (walk_missing_nocreate _ _ _ _ C).
+    destruct p; destruct n as [t s v0|kvs|es]; cbn in L |- *; try discriminate; try reflexivity;
+      try (destruct t; cbn in L |- *; try discriminate; reflexivity).
+Qed.
+
+(* ---------- continuations equal up to a congruence give walks equal up to it ---------- *)
+Section WalkRel.
+  Variable R : node -> node -> Prop.
+  Hypothesis R_refl : forall n, R n n.
+  Hypothesis R_plug : forall p n y y', R y y' -> R (plug p n y) (plug p n y').
+  Hypothesis R_map_app : forall kvs name y y', R y y' -> R (Map (kvs ++ [(name, y)])) (Map (kvs ++ [(name, y')])).
+  Hypothesis R_seq_app : forall es y y', R y y' -> R (Seq (es ++ [y])) (Seq (es ++ [y'])).
+
+  Definition rel_res {B} (a b : res (node * B)) : Prop :=
+    match a, b with
+    | Ok (d, r), Ok (d', r') => R d d' /\ r = r'
+    | Err, Err | Panic, Panic | Diverge, Diverge => True
+    | _, _ => False
+    end.
+
+  Lemma walk_rel {A} cr ps (k k' : node -> res (node * A)) :
+    (forall x, rel_res (k x) (k' x)) ->
+    forall n, rel_res (walk cr ps k n) (walk cr ps k' n).
+  Proof.
+    intros HK. induction ps as [|p ps IH]; intros n.
+    - cbn. specialize (HK n). destruct (k n) as [[y a]| | |], (k' n) as [[y' a']| | |]; cbn in *; try tauto.
+      destruct HK; subst; auto.
+    - destruct (child p n) as [x|] eqn:C.
+      + rewrite !(walk_found _ _ _ _ _ _ C). specialize (IH x).
+        destruct (walk cr ps k x) as [[y a]| | |], (walk cr ps k' x) as [[y' a']| | |]; cbn in *; try tauto.
+        destruct IH; subst; auto.
+      + destruct cr as [leaf|]; [|rewrite !(walk_missing_nocreate _ _ _ _ C);
+                                  destruct (@miss A p n) as [[d r]| | |]; cbn; auto].
+        destruct p; destruct n as [t s v0|kvs|es]; cbn in C |- *; try discriminate; auto;
+          try (destruct t; cbn; auto; fail).
+        all: try (destruct t; cbn; auto).
+        all: try (rewrite C; cbn; auto).
+        all: try (destruct es as [|e es]; cbn; auto; cbn in C; rewrite C; cbn; auto; fail).
+        all: try (destruct (find_index (sel_match nm v) es) as [i|] eqn:F; [rewrite C; cbn; auto|]).
+        all: match goal with
+             | |- rel_res (bind (walk _ _ _ ?f) _) _ => specialize (IH f)
+             end;
+          match goal with
+          | |- rel_res (bind ?w1 _) (bind ?w2 _) =>
+              destruct w1 as [[y a]| | |], w2 as [[y' a']| | |]
+          end; cbn in *; try tauto; destruct IH; subst; auto.
+  Qed.
+End WalkRel.
+
+Lemma walk_ext {A} cr ps (k k' : node -> res (node * A)) :
+  (forall x, k x = k' x) -> forall n, walk cr ps k n = walk cr ps k' n.
+Proof.
+  intros HK n.
+  assert (H : rel_res eq (walk cr ps k n) (walk cr ps k' n)).
+  { apply walk_rel; try congruence; auto.
+    intros x. rewrite HK. destruct (k' x) as [[y a]| | |]; cbn; auto. }
+  destruct (walk cr ps k n) as [[d r]| | |], (walk cr ps k' n) as [[d' r']| | |]; cbn in H; try tauto.
+  destruct H; subst; auto.
+Qed.
+
+(* ====================================================================================================
+   Instances: the operations the property talks about (put / put_scalar / clear_at / lookup)
+   ==================================================================================================== *)
+Section Instances.
+  Variable nonstr : string -> bool.
+
+  Lemma with_style_style_of v : with_style (style_of v) v = v.
+  Proof. destruct v; reflexivity. Qed.
+
+  Lemma quote11_with_style v : exists s, quote11 nonstr v = with_style s v.
+  Proof.
+    destruct v as [t s v| |]; try (exists SPlain; reflexivity).
+    destruct s; try (eexists; reflexivity).
+    destruct t; cbn; try (exists SPlain; reflexivity);
+      destruct (nonstr v); (exists SDouble; reflexivity) || (exists SPlain; reflexivity).
+  Qed.
+
+  Lemma with_style_idem s v : with_style (style_of (with_style s v)) v = with_style s v.
+  Proof. destruct v; reflexivity. Qed.
+
+  Lemma quote11_idem v : with_style (style_of (quote11 nonstr v)) v = quote11 nonstr v.
+  Proof. destruct (quote11_with_style v) as [s ->]. apply with_style_idem. Qed.
+
+  Lemma is_null_with_style s v : is_null (with_style s v) = is_null v.
+  Proof. destruct v; reflexivity. Qed.
+
+  Lemma unstyle_with_style s v : unstyle (with_style s v) = unstyle v.
+  Proof. destruct v; reflexivity. Qed.
+
+  (* FieldSetter with a non-null value, on a non-null node: the node is a mapping and the field now holds v
+     (up to the style kept from the old value / forced by the YAML 1.1 quoting) *)
+  Lemma set_field_spec name v x x' :
+    is_null v = false -> set_field nonstr name (Some v) false x = Ok x' ->
+    (is_null x = true /\ x' = x) \/
+    (exists kvs s, x = Map kvs /\
+       ((exists old, find_field name kvs = Some old /\ s = style_of old /\
+                     x' = Map (set_first name (with_style s v) kvs))
+        \/ (find_field name kvs = None /\ with_style s v = quote11 nonstr v /\
+            x' = Map (kvs ++ [(name, with_style s v)])))).
+  Proof.
+    intros Nv H. unfold set_field in H. rewrite Nv in H. cbn in H.
+    destruct x as [t s0 v0|kvs|es].
+    - destruct (is_null (Scalar t s0 v0)) eqn:N; inv H. auto.
+    - right. destruct (find_field name kvs) as [old|] eqn:F; inv H.
+      + exists kvs, (style_of old). split; auto. left. exists old. auto.
+      + destruct (quote11_with_style v) as [s Hs]. exists kvs, s. split; auto. right.
+        rewrite <- Hs. auto.
+    - discriminate.
+  Qed.
+
+  Lemma set_field_keeps_value name v : k_keeps_value (k_set_field nonstr name v).
+  Proof.
+    intros x x' a H. unfold k_set_field in H.
+    destruct (set_field nonstr name (Some v) false x) as [m| | |] eqn:E; cbn in H; inv H.
+    unfold set_field in E.
+    destruct (is_null v && negb false).
+    - destruct x as [t s0 v0|kvs|es]; cbn in E.
+      + destruct t; inv E; reflexivity.
+      + inv E; reflexivity.
+      + discriminate.
+    - destruct x as [t s0 v0|kvs|es]; cbn in E.
+      + destruct t; inv E; reflexivity.
+      + destruct (find_field name kvs); inv E; reflexivity.
+      + discriminate.
+  Qed.
+
+  Lemma set_field_keeps_sel name v nm w : nm <> name -> k_keeps_sel (k_set_field nonstr name v) nm w.
+  Proof.
+    intros Hne x x' a H M.
+    pose proof (set_field_keeps_value name v x x' a H) as HV.
+    unfold sel_match in *. destruct (String.eqb nm ""); [now rewrite HV|].
+    destruct x as [|kvs|]; try discriminate.
+    unfold k_set_field in H.
+    destruct (set_field nonstr name (Some v) false (Map kvs)) as [m| | |] eqn:E; cbn in H; inv H.
+    assert (Hne' : name <> nm) by congruence.
+    unfold set_field in E. destruct (is_null v && negb false); cbn in E.
+    - inv E. now rewrite (find_field_remove_first_other _ _ _ Hne').
+    - destruct (find_field name kvs); inv E.
+      + now rewrite (find_field_set_first_other _ _ _ _ Hne').
+      + now rewrite (find_field_app_other _ _ _ _ Hne').
+  Qed.
+
+  Lemma stable_put_sound ps name v : stable_put ps name = true -> stable ps (k_set_field nonstr name v).
+  Proof.
+    induction ps as [|p ps IH]; intros H; [exact I|].
+    assert (Ht : ps <> [] -> stable_put ps name = true).
+    { intros Hps. destruct ps as [|p2 ps]; [congruence|]. destruct p; exact H. }
+    destruct p; try (destruct ps; [exact I|apply IH; apply Ht; discriminate]).
+    cbn [stable]. destruct ps as [|p2 ps].
+    - split; [|exact I]. cbn. apply set_field_keeps_sel.
+      cbn in H. apply negb_true_iff in H. now apply String.eqb_neq.
+    - split; [|apply IH; apply Ht; discriminate].
+      destruct p2; cbn; auto. destruct ps; auto. intros _ _. apply set_field_keeps_value.
+  Qed.
+
+  Lemma set_scalar_keeps_sel v nm w : nm <> "" -> k_keeps_sel (k_set_scalar v) nm w.
+  Proof.
+    intros Hne x x' a H M. unfold sel_match in M.
+    apply String.eqb_neq in Hne. rewrite Hne in M.
+    destruct x as [|kvs|]; discriminate.
+  Qed.
+
+  Lemma stable_put_scalar_sound ps v : stable_put_scalar ps = true -> stable ps (k_set_scalar v).
+  Proof.
+    induction ps as [|p ps IH]; intros H; [exact I|].
+    destruct p; try (destruct ps as [|p2 ps]; [exact I|apply IH; destruct p2; exact H]).
+    (* PSel *)
+    cbn [stable]. destruct ps as [|p2 ps].
+    - split; [|exact I]. cbn. apply set_scalar_keeps_sel.
+      cbn in H. apply negb_true_iff in H. now apply String.eqb_neq.
+    - destruct p2; try (split; [exact I|apply IH; exact H]).
+      + (* PSel ; PKey *)
+        destruct ps as [|p3 ps].
+        * split; [|exact I]. cbn. intros -> Hn. cbn in H.
+          rewrite String.eqb_refl in H. cbn in H. apply String.eqb_eq in H. contradiction.
+        * split; [exact I|]. apply IH. exact H.
+  Qed.
+
+  (* ---------- PUT-GET ---------- *)
+  Lemma walk_get_lookup ps n x : walk None ps k_get n = Ok (n, Some x) -> lookup ps n = Ok (Some x).
+  Proof. intros H. unfold lookup. now rewrite H. Qed.
+
+  Lemma put_get ps name v n n' :
+    is_null v = false -> stable_put ps name = true -> no_null_path ps n = true ->
+    put nonstr ps name v n = Ok (n', Some tt) ->
+    exists s, lookup (ps ++ [PKey name]) n' = Ok (Some (with_style s v)).
+  Proof.
+    intros Nv S NN H. unfold put in H.
+    destruct (walk_put_get _ _ _ (stable_put_sound _ _ v S) _ _ _ NN H) as [x [x' [Nx [K G]]]].
+    unfold k_set_field in K.
+    destruct (set_field nonstr name (Some v) false x) as [m| | |] eqn:E; cbn in K; inv K.
+    rewrite lookup_app, (walk_get_lookup _ _ _ G).
+    destruct (set_field_spec _ _ _ _ Nv E) as [[N _]|(kvs & s & -> & [(old & F & Hs & ->)|(F & Q & ->)])];
+      [congruence| |]; exists s; unfold lookup; cbn.
+    - now rewrite (find_field_set_first_same _ _ _ _ F).
+    - now rewrite (find_field_app_same _ _ _ F).
+  Qed.
+
+  Lemma put_scalar_get ps v n n' :
+    is_null v = false -> stable_put_scalar ps = true -> no_null_path ps n = true ->
+    put_scalar ps v n = Ok (n', Some tt) ->
+    exists s, lookup ps n' = Ok (Some (with_style s v)).
+  Proof.
+    intros Nv S NN H. unfold put_scalar in H.
+    destruct (walk_put_get _ _ _ (stable_put_scalar_sound _ v S) _ _ _ NN H) as [x [x' [Nx [K G]]]].
+    rewrite (walk_get_lookup _ _ _ G).
+    unfold k_set_scalar, set_scalar in K. destruct x as [t s0 v0| |]; try discriminate.
+    rewrite Nx, Nv in K. cbn in K. inv K. eauto.
+  Qed.
+
+  (* ---------- GET-PUT ---------- *)
+  Lemma get_put cr ps name v n :
+    is_null v = false -> lookup (ps ++ [PKey name]) n = Ok (Some v) ->
+    walk cr ps (k_set_field nonstr name v) n = Ok (n, Some tt).
+  Proof.
+    intros Nv L. rewrite lookup_app in L.
+    destruct (lookup ps n) as [[m|]| | |] eqn:Lm; try discriminate.
+    eapply walk_get_put; [exact Lm|].
+    unfold lookup in L. destruct m as [t s0 v0|kvs|es]; cbn in L.
+    - destruct t; discriminate.
+    - destruct (find_field name kvs) as [old|] eqn:F; [|discriminate]. cbn in L. inv L.
+      unfold k_set_field, set_field. rewrite Nv. cbn. rewrite F. cbn.
+      now rewrite with_style_style_of, (set_first_same _ _ _ F).
+    - discriminate.
+  Qed.
+
+  (* ---------- PUT-PUT ---------- *)
+  Lemma set_field_idem name v x x' :
+    is_null v = false -> k_set_field nonstr name v x = Ok (x', tt) -> k_set_field nonstr name v x' = Ok (x', tt).
+  Proof.
+    intros Nv K. unfold k_set_field in K.
+    destruct (set_field nonstr name (Some v) false x) as [m| | |] eqn:E; cbn in K; inv K.
+    destruct (set_field_spec _ _ _ _ Nv E) as [[N ->]|(kvs & s & -> & [(old & F & -> & ->)|(F & Q & ->)])].
+    - unfold k_set_field. now rewrite E.
+    - unfold k_set_field, set_field. rewrite Nv. cbn.
+      rewrite (find_field_set_first_same _ _ _ _ F). cbn.
+      now rewrite with_style_idem, set_first_set_first.
+    - unfold k_set_field, set_field. rewrite Nv. cbn.
+      rewrite (find_field_app_same _ _ _ F). cbn.
+      now rewrite with_style_idem, (set_first_app_same _ _ _ _ F).
+  Qed.
+
+  Lemma put_idempotent cr ps name v n n1 :
+    is_null v = false -> stable_put ps name = true -> no_null_path ps n = true ->
+    walk cr ps (k_set_field nonstr name v) n = Ok (n1, Some tt) ->
+    walk cr ps (k_set_field nonstr name v) n1 = Ok (n1, Some tt).
+  Proof.
+    intros Nv S NN H.
+    rewrite (walk_fusion _ _ _ (k_set_field nonstr name v) (stable_put_sound _ _ v S) _ _ _ NN H).
+    rewrite <- H. apply walk_ext. intros x. unfold kseq.
+    destruct (k_set_field nonstr name v x) as [[x1 []]| | |] eqn:K; cbn; auto.
+    rewrite (set_field_idem _ _ _ _ Nv K). reflexivity.
+  Qed.
+
+  (* last write wins, up to the style the stored scalar inherits from what was there before *)
+  Definition unstyle_eq (a b : node) : Prop := unstyle a = unstyle b.
+
+  Lemma unstyle_set_first name y y' kvs :
+    unstyle y = unstyle y' ->
+    map (fun kv => (fst kv, unstyle (snd kv))) (set_first name y kvs) =
+    map (fun kv => (fst kv, unstyle (snd kv))) (set_first name y' kvs).
+  Proof.
+    intros H. induction kvs as [|[k v] t IH]; cbn; [reflexivity|].
+    destruct (String.eqb k name); cbn; [now rewrite H|now rewrite IH].
+  Qed.
+
+  Lemma unstyle_replace_nth i y y' es :
+    unstyle y = unstyle y' -> map unstyle (replace_nth i y es) = map unstyle (replace_nth i y' es).
+  Proof.
+    intros H. revert i; induction es as [|e t IH]; intros [|i]; cbn; auto; [now rewrite H|now rewrite IH].
+  Qed.
+
+  Lemma unstyle_plug p n y y' : unstyle_eq y y' -> unstyle_eq (plug p n y) (plug p n y').
+  Proof.
+    unfold unstyle_eq. intros H. destruct p, n; cbn; auto.
+    - now rewrite (unstyle_set_first _ _ _ _ H).
+    - now rewrite (unstyle_replace_nth _ _ _ _ H).
+    - now rewrite (unstyle_replace_nth _ _ _ _ H).
+    - destruct (find_index (sel_match nm v) es); auto. cbn. now rewrite (unstyle_replace_nth _ _ _ _ H).
+  Qed.
+
+  Definition res_unstyle_eq {B} (a b : res (node * B)) : Prop := rel_res unstyle_eq a b.
+
+  Lemma put_last_wins cr ps name v1 v2 n n1 :
+    is_null v1 = false -> is_null v2 = false ->
+    stable_put ps name = true -> no_null_path ps n = true ->
+    walk cr ps (k_set_field nonstr name v1) n = Ok (n1, Some tt) ->
+    res_unstyle_eq (walk cr ps (k_set_field nonstr name v2) n1) (walk cr ps (k_set_field nonstr name v2) n).
+  Proof.
+    intros N1 N2 S NN H.
+    rewrite (walk_fusion _ _ _ (k_set_field nonstr name v2) (stable_put_sound _ _ v1 S) _ _ _ NN H).
+    apply walk_rel.
+    - intros x; reflexivity.
+    - apply unstyle_plug.
+    - unfold unstyle_eq. intros kvs nm y y' E. cbn. rewrite !map_app. cbn. now rewrite E.
+    - unfold unstyle_eq. intros es y y' E. cbn. rewrite !map_app. cbn. now rewrite E.
+    - intros x. unfold kseq.
+      destruct (k_set_field nonstr name v1 x) as [[x1 []]| | |] eqn:K1.
+      + unfold k_set_field in K1.
+        destruct (set_field nonstr name (Some v1) false x) as [m| | |] eqn:E; cbn in K1; inv K1.
+        cbn [bind fst].
+        destruct (set_field_spec _ _ _ _ N1 E) as [[N ->]|(kvs & s & -> & [(old & F & -> & ->)|(F & Q & ->)])].
+        * destruct (k_set_field nonstr name v2 x) as [[? ?]| | |]; cbn; auto. split; reflexivity.
+        * unfold k_set_field, set_field. rewrite N2. cbn.
+          rewrite (find_field_set_first_same _ _ _ _ F), F. cbn. split; auto.
+          unfold unstyle_eq. cbn. rewrite set_first_set_first.
+          f_equal. apply unstyle_set_first. now rewrite !unstyle_with_style.
+        * unfold k_set_field, set_field. rewrite N2. cbn.
+          rewrite (find_field_app_same _ _ _ F), F. cbn. split; auto.
+          unfold unstyle_eq. cbn. rewrite (set_first_app_same _ _ _ _ F), !map_app. cbn.
+          destruct (quote11_with_style v2) as [s2 ->]. now rewrite !unstyle_with_style.
+      + (* first write errs: so does the second (same node class) *)
+        unfold k_set_field, set_field in *. rewrite N1 in K1. rewrite N2. cbn in *.
+        destruct x as [t s0 v0|kvs|es]; cbn in *.
+        * destruct t; cbn in *; try discriminate; auto.
+        * destruct (find_field name kvs); discriminate.
+        * exact I.
+      + unfold k_set_field, set_field in K1. rewrite N1 in K1. cbn in K1.
+        destruct x as [t s0 v0|kvs|es]; cbn in K1; try discriminate.
+        * destruct t; discriminate.
+        * destruct (find_field name kvs); discriminate.
+      + unfold k_set_field, set_field in K1. rewrite N1 in K1. cbn in K1.
+        destruct x as [t s0 v0|kvs|es]; cbn in K1; try discriminate.
+        * destruct t; discriminate.
+        * destruct (find_field name kvs); discriminate.
+  Qed.
+
+  (* ---------- FRAME for put ---------- *)
+  Definition sibling_of (name : string) (qs : list part) : Prop :=
+    exists b rest, qs = PKey b :: rest /\ b <> name.
+
+  Lemma diverges_put_end ps name qs :
+    diverges (ps ++ [PKey name]) qs -> diverges_end (sibling_of name) ps qs.
+  Proof.
+    revert qs; induction ps as [|p ps IH]; intros qs D; cbn in D.
+    - inversion D as [p0 q ps0 qs' Hpq|p0 ps0 qs' D']; subst.
+      + inversion Hpq; subst. apply dve_end. exists b, qs'. split; auto.
+      + inversion D'.
+    - inversion D as [p0 q ps0 qs' Hpq|p0 ps0 qs' D']; subst.
+      + now apply dve_here.
+      + apply dve_later. now apply IH.
+  Qed.
+
+  Lemma set_field_cases name v x x' a :
+    k_set_field nonstr name v x = Ok (x', a) ->
+    (is_null x = true /\ x' = x) \/
+    (exists kvs kvs', x = Map kvs /\ x' = Map kvs' /\ forall b, b <> name -> find_field b kvs' = find_field b kvs).
+  Proof.
+    intros H. unfold k_set_field in H.
+    destruct (set_field nonstr name (Some v) false x) as [m| | |] eqn:E; cbn in H; inv H.
+    unfold set_field in E. destruct (is_null v && negb false); cbn in E.
+    - destruct x as [t s0 v0|kvs|es]; cbn in E.
+      + destruct t; inv E. left; auto.
+      + inv E. right. exists kvs, (remove_first name kvs). repeat split; auto.
+        intros b Hb. apply find_field_remove_first_other. congruence.
+      + discriminate.
+    - destruct x as [t s0 v0|kvs|es]; cbn in E.
+      + destruct t; inv E. left; auto.
+      + right. destruct (find_field name kvs); inv E; eexists _, _; repeat split; auto; intros b Hb.
+        * apply find_field_set_first_other. congruence.
+        * apply find_field_app_other. congruence.
+      + discriminate.
+  Qed.
+
+  Lemma put_frame cr ps name v qs n n' r :
+    stable_put ps name = true ->
+    diverges (ps ++ [PKey name]) qs ->
+    (no_sel_key_read qs \/ lookup qs n <> Ok None) ->
+    walk cr ps (k_set_field nonstr name v) n = Ok (n', r) ->
+    lookup qs n' = lookup qs n.
+  Proof.
+    intros S D SC H.
+    apply (walk_frame_end (k_set_field nonstr name v) (sibling_of name)) with (cr := cr) (ps := ps) (r := r);
+      auto using stable_put_sound, diverges_put_end.
+    - intros q x x' a (b & rest & -> & Hb) K.
+      destruct (set_field_cases _ _ _ _ _ K) as [[_ ->]|(kvs & kvs' & -> & -> & F)]; [reflexivity|].
+      apply lookup_cons_congr; [|exact I]. cbn. now apply F.
+    - intros q leaf x' a (b & rest & -> & Hb) K.
+      destruct leaf; cbn in K |- *.
+      + destruct (set_field_cases _ _ _ _ _ K) as [[N _]|(kvs & kvs' & E & _)]; discriminate.
+      + reflexivity.
+      + destruct (set_field_cases _ _ _ _ _ K) as [[N _]|(kvs & kvs' & E & _)]; discriminate.
+    - intros q nm w x' a (b & rest & -> & Hb) K NK.
+      unfold sel_new in *. destruct (String.eqb nm "").
+      + destruct (set_field_cases _ _ _ _ _ K) as [[N _]|(kvs & kvs' & E & _)]; discriminate.
+      + unfold lookup; cbn. destruct (String.eqb nm b) eqn:E; [|reflexivity].
+        apply String.eqb_eq in E. congruence.
+  Qed.
+
+  (* ---------- ABSENT PATH: clear is a no-op ---------- *)
+  Lemma absent_clear_noop ps name n :
+    lookup (ps ++ [PKey name]) n = Ok None -> exists r, clear_at ps name n = Ok (n, r).
+  Proof.
+    intros L. rewrite lookup_app in L. unfold clear_at.
+    destruct (lookup ps n) as [[m|]| | |] eqn:Lm; try discriminate.
+    - exists (Some tt). eapply walk_get_put; [exact Lm|].
+      unfold lookup in L. destruct m as [t s0 v0|kvs|es]; cbn in L.
+      + destruct t; try discriminate. reflexivity.
+      + destruct (find_field name kvs) as [old|] eqn:F; [discriminate|].
+        unfold k_clear, clear_field. now rewrite (remove_first_absent _ _ F).
+      + discriminate.
+    - exists None. now apply lookup_none_walk.
+  Qed.
+End Instances.
+
+(* ====================================================================================================
+   No panic: a path walk never panics unless the continuation does.
+   (Before the repo fix 5cf7cc6 "-" on an empty or null sequence indexed elems[-1]; ElementIndexer now
+   returns "no match" there, and the model's PLast branches return Ok (n, None).)
+   ==================================================================================================== *)
+Lemma walk_last_on_empty {A} cr ps (k : node -> res (node * A)) :
+  walk cr (PLast :: ps) k (Seq []) = Ok (Seq [], None).
+Proof. reflexivity. Qed.
+
+Lemma walk_last_on_null {A} cr ps (k : node -> res (node * A)) s v :
+  walk cr (PLast :: ps) k (Scalar TNull s v) = Ok (Scalar TNull s v, None).
+Proof. reflexivity. Qed.
+
+Lemma walk_no_panic {A} cr ps (k : node -> res (node * A)) :
+  (forall x, k x <> Panic) -> forall n, walk cr ps k n <> Panic.
+Proof.
+  intros HK. induction ps as [|p ps IH]; intros n H.
+  - cbn in H. specialize (HK n). destruct (k n) as [[? ?]| | |]; cbn in H; congruence.
+  - destruct (child p n) as [x|] eqn:C.
+    + rewrite (walk_found _ _ _ _ _ _ C) in H. specialize (IH x).
+      destruct (walk cr ps k x) as [[? ?]| | |]; cbn in H; congruence.
+    + destruct cr as [leaf|].
+      2:{ rewrite (walk_missing_nocreate _ _ _ _ C) in H.
+          destruct p; destruct n as [t s v0|kvs|es]; cbn in H; try discriminate;
+            try (destruct t; discriminate). }
+      destruct p; destruct n as [t s v0|kvs|es]; cbn in C, H; try discriminate;
+        try (destruct t; discriminate).
+      all: try (rewrite C in H; try discriminate).
+      all: try (destruct es as [|e es]; [discriminate|cbn in C, H; rewrite C in H; discriminate]).
+      all: try (destruct t; try discriminate).
+      all: try (destruct (find_index (sel_match nm v) es) as [i|] eqn:F; [rewrite C in H; discriminate|]).
+      all: match type of H with
+           | bind (walk _ _ _ ?f) _ = Panic => specialize (IH f);
+               destruct (walk (Some leaf) ps k f) as [[? ?]| | |]; cbn in H; congruence
+           end.
+Qed.
+
+Lemma k_get_no_panic x : k_get x <> Panic.
+Proof. discriminate. Qed.
+
+Lemma lookup_no_panic ps n : lookup ps n <> Panic.
+Proof.
+  unfold lookup. intros H. pose proof (walk_no_panic None ps k_get k_get_no_panic n) as W.
+  destruct (walk None ps k_get n) as [[? ?]| | |]; cbn in H; congruence.
+Qed.
+
+Lemma lookup_create_no_panic leaf ps n : lookup_create leaf ps n <> Panic.
+Proof. apply walk_no_panic, k_get_no_panic. Qed.
+
+Lemma set_field_no_panic nonstr name v keep m : set_field nonstr name v keep m <> Panic.
+Proof.
+  unfold set_field, clear_field. destruct v as [v0|].
+  - destruct (is_null v0 && negb keep); destruct m as [t ? ?| kvs |]; try discriminate;
+      try (destruct t; discriminate). destruct (find_field name kvs); discriminate.
+  - destruct m as [t ? ?| |]; try discriminate. destruct t; discriminate.
+Qed.
+
+Lemma put_no_panic nonstr ps name v n : put nonstr ps name v n <> Panic.
+Proof.
+  apply walk_no_panic. intros x. unfold k_set_field.
+  pose proof (set_field_no_panic nonstr name (Some v) false x) as S.
+  destruct (set_field nonstr name (Some v) false x); cbn; congruence.
+Qed.
+
+Lemma put_nocreate_no_panic nonstr ps name v n : put_nocreate nonstr ps name v n <> Panic.
+Proof.
+  apply walk_no_panic. intros x. unfold k_set_field.
+  pose proof (set_field_no_panic nonstr name (Some v) false x) as S.
+  destruct (set_field nonstr name (Some v) false x); cbn; congruence.
+Qed.
+
+Lemma clear_at_no_panic ps name n : clear_at ps name n <> Panic.
+Proof.
+  apply walk_no_panic. intros x. unfold k_clear, clear_field.
+  destruct x as [t ? ?| |]; cbn; try discriminate. destruct t; discriminate.
+Qed.
+
+Lemma put_scalar_no_panic ps v n : put_scalar ps v n <> Panic.
+Proof.
+  apply walk_no_panic. intros x. unfold k_set_scalar, set_scalar.
+  destruct x as [t s0 v0| |]; cbn; try discriminate.
+  destruct t; cbn; destruct (is_null v); discriminate.
+Qed.
+
+(* ====================================================================================================
+   Non-vacuity examples, and witnesses showing that the hypotheses H1 / H2 cannot be dropped
+   ==================================================================================================== *)
+Section Examples.
+  Let ns : string -> bool := fun _ => false.
+  Let str (s : string) := Scalar TStr SPlain s.
+  (* containers: [{name: x, image: i}] ; meta: {} ; a: null ; l: [] *)
+  Let doc : node :=
+    Map [("containers", Seq [Map [("name", str "x"); ("image", str "i")]; Map [("name", str "y")]]);
+         ("meta", Map []); ("a", Scalar TNull SPlain "null"); ("l", Seq [])].
+  Let p1 := [PKey "containers"; PSel "name" "x"].
+
+  (* a write through an existing selector, and one that creates the element: hypotheses hold, path found *)
+  Example ex_put_hyps :
+    stable_put p1 "image" = true /\ no_null_path p1 doc = true /\
+    exists n', put ns p1 "image" (str "j") doc = Ok (n', Some tt) /\
+               lookup (p1 ++ [PKey "image"]) n' = Ok (Some (str "j")).
+  Proof. vm_compute. repeat split; eauto. Qed.
+
+  Example ex_put_creates :
+    let p := [PKey "meta"; PKey "labels"] in
+    stable_put p "app" = true /\ no_null_path p doc = true /\
+    exists n', put ns p "app" (str "z") doc = Ok (n', Some tt) /\
+               lookup (p ++ [PKey "app"]) n' = Ok (Some (str "z")).
+  Proof. vm_compute. repeat split; eauto. Qed.
+
+  Example ex_put_creates_element :
+    let p := [PKey "containers"; PSel "name" "z"] in
+    stable_put p "image" = true /\ no_null_path p doc = true /\
+    exists n', put ns p "image" (str "k") doc = Ok (n', Some tt) /\
+               lookup (p ++ [PKey "image"]) n' = Ok (Some (str "k")).
+  Proof. vm_compute. repeat split; eauto. Qed.
+
+  Example ex_diverges :
+    diverges (p1 ++ [PKey "image"]) [PKey "containers"; PSel "name" "y"; PKey "name"] /\
+    diverges (p1 ++ [PKey "image"]) [PKey "containers"; PSel "name" "x"; PKey "name"] /\
+    diverges (p1 ++ [PKey "image"]) [PKey "meta"].
+  Proof.
+    repeat split.
+    - apply div_later, div_here, apart_sel. discriminate.
+    - apply div_later, div_later, div_here, apart_key. discriminate.
+    - apply div_here, apart_key. discriminate.
+  Qed.
+
+  (* H1 cannot be dropped: overwriting the key a selector matches on loses the element for that selector *)
+  Lemma put_get_needs_stable :
+    exists ps name v n n',
+      is_null v = false /\ no_null_path ps n = true /\ put ns ps name v n = Ok (n', Some tt) /\
+      lookup (ps ++ [PKey name]) n' = Ok None.
+  Proof.
+    exists p1, "name", (str "q"), doc. eexists. vm_compute. repeat split.
+  Qed.
+
+  (* H2 cannot be dropped: a write through a null node reports success and is lost *)
+  Lemma put_get_needs_no_null :
+    exists ps name v n n',
+      is_null v = false /\ stable_put ps name = true /\ put ns ps name v n = Ok (n', Some tt) /\
+      lookup (ps ++ [PKey name]) n' = Ok None /\ n' = n.
+  Proof.
+    exists [PKey "a"], "b", (str "q"), doc. eexists. vm_compute. repeat split.
+  Qed.
+
+  (* a selector element appended to a null "sequence" is lost as well *)
+  Lemma put_get_needs_no_null_sel :
+    exists ps name v n n',
+      is_null v = false /\ stable_put ps name = true /\ put ns ps name v n = Ok (n', Some tt) /\
+      lookup (ps ++ [PKey name]) n' = Ok None /\ n' = n.
+  Proof.
+    exists [PKey "a"; PSel "name" "x"], "b", (str "q"), doc. eexists. vm_compute. repeat split.
+  Qed.
+
+  (* the frame side condition cannot be dropped: appending the element [name=z] creates its name field *)
+  Lemma frame_needs_side_condition :
+    exists ps name v qs n n',
+      stable_put ps name = true /\ diverges (ps ++ [PKey name]) qs /\
+      put ns ps name v n = Ok (n', Some tt) /\ lookup qs n = Ok None /\ lookup qs n' <> Ok None.
+  Proof.
+    exists [PKey "containers"; PSel "name" "z"], "image", (str "k"),
+           [PKey "containers"; PSel "name" "z"; PKey "name"], doc. eexists.
+    split; [reflexivity|]. split.
+    - apply div_later, div_later, div_here, apart_key. discriminate.
+    - vm_compute. repeat split. discriminate.
+  Qed.
+
+  (* "-" on an empty list or a null node finds nothing (it used to panic: elems[len(elems)-1] with len 0) *)
+  Lemma last_on_empty_absent :
+    lookup [PKey "l"; PLast] doc = Ok None /\ lookup [PKey "a"; PLast] doc = Ok None.
+  Proof. split; reflexivity. Qed.
+End Examples.
